@@ -39,8 +39,23 @@ struct D_ : state_machine_def<D_> {
   template<class F,class Ev> void no_transition(Ev const&,F&,int){ g_log += "NT "; }
 };
 typedef BE<D_> D;
+// the first machine used as a SUBMACHINE: the enclosing machine has no row of its own for these events; each must be forwarded to the
+// submachine exactly once (the submachine has several trigger types - exact, base class, Kleene - that match one event; how many
+// forwarding rows result is a compile-time computation of the back-end) and handled there as if it were the root (C18, C07)
+struct TopM_ : state_machine_def<TopM_> {
+  typedef M initial_state;
+  struct transition_table : mpl::vector<> {};
+  template<class F,class Ev> void no_transition(Ev const&,F&,int){ g_log += "NTtop "; }
+};
+typedef BE<TopM_> TopM;
 int main(int argc, char** argv) {
   if (argc > 1) g_only = argv[1];
+  { TopM m; m.start(); g_log.clear(); m.process_event(derived_ev(11));
+    report("in-submachine.derived.exact-wins", g_log == "exact:11 ", "C18,C07,C13", "log=[" + g_log + "]"); }
+  { TopM m; m.start(); g_log.clear(); m.process_event(base_ev(22));
+    report("in-submachine.base.base-row", g_log == "base:22 ", "C18,C07,C13", "log=[" + g_log + "]"); }
+  { TopM m; m.start(); g_log.clear(); m.process_event(other_ev(33));
+    report("in-submachine.other.kleene-row-with-payload", g_log == "any:33 ", "C18,C07,C13", "log=[" + g_log + "]"); }
   { M m; m.start(); g_log.clear(); m.process_event(derived_ev(11));
     report("derived.exact-wins", g_log == "exact:11 ", "C18,C13", "log=[" + g_log + "]"); }
   { M m; m.start(); g_log.clear(); m.process_event(base_ev(22));
